@@ -128,9 +128,56 @@ def full_family(seed):
     return out
 
 
+def deep_family():
+    """DAGs at the depth limit (a cell may be 1023 levels deep): single-reference chains and 'ladders' whose every cell
+    references its only child twice (2^depth root paths), so that neither a recursive nor a per-path traversal survives"""
+    out = []
+    for d in (512, 1000, 1023):
+        def chain(d=d):
+            c = RC.RCell('1')
+            for i in range(d):
+                c = RC.RCell(format(i, '010b') + '1', (c,))
+            return c
+        out.append((f'deep:chain:{d}', chain))
+    for d in (999, 1022):
+        def ladder(d=d):
+            c = RC.RCell('0')
+            for i in range(d):
+                c = RC.RCell(format(i, '010b'), (c, c))
+            return c
+        out.append((f'deep:ladder:{d}', ladder))
+    return out
+
+
 def family(tier, seed):
-    fam = shape_family(3 if tier == 'quick' else 4) + content_family(seed) + full_family(seed) + exotic_family() + boundary_family(tier)
+    fam = shape_family(3 if tier == 'quick' else 4) + content_family(seed) + full_family(seed) + exotic_family() + boundary_family(tier) + deep_family()
     return fam
+
+
+def to_lib_unshared(rc):
+    """library cells for rc where EVERY occurrence of a sub-cell is a separately built Python object (equal by hash,
+    distinct by identity) - what a caller gets who parses or builds the same sub-tree twice.  Tree expansion: only for
+    small DAGs."""
+    from .common import to_lib
+    from pytoniq_core.boc import Builder
+    b = Builder(type_=rc.type if rc.special else -1)
+    b.store_bits(rc.bits)
+    for r in rc.refs:
+        b.store_ref(to_lib_unshared(r))
+    return b.end_cell()
+
+
+def lib_nodes(root):
+    """the distinct cell objects of a library DAG in first-visit (pre-)order"""
+    seen, out, stack = set(), [], [root]
+    while stack:
+        c = stack.pop()
+        if id(c) in seen:
+            continue
+        seen.add(id(c))
+        out.append(c)
+        stack.extend(reversed(c.refs))
+    return out
 
 
 OPTION_SETS = [
